@@ -379,7 +379,13 @@ func (h *HttpServer) sealToken(version byte, payload interface{}, aad []byte) ([
 
 // openToken reverses sealToken into out (a pointer to the token struct).
 func (h *HttpServer) openToken(version byte, token []byte, aad []byte, out interface{}) error {
-	raw, err := base64.StdEncoding.DecodeString(string(token))
+	// Only the canonical spelling sealToken produced is a token. The stock
+	// decoder skips CR/LF and tolerates non-zero trailing bits, so without
+	// this an altered (re-encoded) token would still open.
+	if bytes.ContainsAny(token, "\r\n") {
+		return &RpcError{Type: "RuntimeError", Message: "Malformed state token"}
+	}
+	raw, err := base64.StdEncoding.Strict().DecodeString(string(token))
 	if err != nil {
 		return &RpcError{Type: "RuntimeError", Message: "Malformed state token"}
 	}
